@@ -386,7 +386,6 @@ func condAtomsOf(v ssa.Value) []string { return ir.CondAtoms(v, true) }
 
 var _ = report.Discharged
 
-
 // quorumRules: the premises of quorum intersection that C01's agreement argument rests on —
 // a block id becomes the +2/3 majority of a vote set only when its tally crosses
 // total*2/3+1 (strictly more than two thirds), once; "any +2/3" is sum > total*2/3.
